@@ -3,7 +3,7 @@
    routines, any buffer sizes, any nesting) and ALL schedules.  What the model cannot exhibit (Go scheduler,
    data races on interpreter globals, fatal `concurrent map` errors) is exercised on the implementation only:
    see props/C17.json. *)
-From C17 Require Import Model Spec Steps ChanProofs MutexProofs CounterProofs FlatProofs ObsProofs Explore Corr Proofs ScopeModel ScopeProofs.
+From C17 Require Import Model Spec Steps ChanProofs MutexProofs CounterProofs FlatProofs ObsProofs Explore Corr Proofs ScopeModel ScopeProofs TableModel TableProofs.
 
 (* (1) "every item pushed on a channel is received exactly once".
    Conservation: what was sent on a channel = what was received ++ what is still queued ++ what a close
@@ -243,6 +243,33 @@ Theorem C17_no_run_no_mutex : forall sch st, srun sinit sch = Some st -> norun s
 Proof. exact no_run_no_mutex. Qed.
 Print Assumptions C17_no_run_no_mutex.
 
+(* what run is for: after (run form) in scope s EVERY scope a lookup reaches from s is synchronized - all parents of
+   every scope on the way (a call scope has two: the closure's / instance's scope and the caller's), also those that
+   come after a parent that was synchronized before *)
+Theorem C17_run_synchronizes_all_reachable : forall st i st' stk s t,
+  sreach st -> sstep st i SRun = Some st' -> nth_error (stacks st) i = Some (s :: stk) -> In t (anc st s) ->
+  synced st' t = true.
+Proof. exact run_synchronizes_all_reachable. Qed.
+Print Assumptions C17_run_synchronizes_all_reachable.
+
+(* a synchronized scope has everything it reaches synchronized *)
+Theorem C17_synchronized_scope_is_closed : forall st t u,
+  sreach st -> synced st t = true -> In u (anc st t) -> synced st u = true.
+Proof. exact synchronized_scope_is_closed. Qed.
+Print Assumptions C17_synchronized_scope_is_closed.
+
+(* REFUTED for a Share that stops (break) at the first parent that is synchronized already: a closure that started a
+   routine before is called again from a fresh let; the caller's scope stays unsynchronized although the new routine
+   reaches it.  With the real Share the same history ends with all five scopes synchronized. *)
+Theorem C17_share_stopping_at_synchronized_parent_refuted :
+  exists st, srun_break sinit break_witness = Some st /\ touches st 0 3 /\ touches st 2 3 /\ synced st 3 = false.
+Proof. exact share_stopping_at_synchronized_parent_refuted. Qed.
+Print Assumptions C17_share_stopping_at_synchronized_parent_refuted.
+Theorem C17_share_example_two_calls :
+  exists st, srun_g sinit break_witness = Some st /\ sreach st /\ map (synced st) [0; 1; 2; 3; 4] = [true; true; true; true; true].
+Proof. exact share_example_two_calls. Qed.
+Print Assumptions C17_share_example_two_calls.
+
 (* REFUTED outside the guard (known finding C17-closure-scope-race): a function defined inside a let and called by
    two routines brings a closure scope that no run ever saw: both routines use it, it is not synchronized *)
 Theorem C17_global_closure_scope_unsynchronized_refuted :
@@ -276,3 +303,29 @@ Theorem C17_compile_slot_example :
   exists st, crun (cinit 3) [0; 1; 1; 0; 2] = Some st /\ writes st = 1 /\ phases st = [CUse 1; CUse 1; CUse 1].
 Proof. exact compile_slot_example. Qed.
 Print Assumptions C17_compile_slot_example.
+
+(* (12) "the interpreter's own shared tables (packages ...) are never corrupted": the lock discipline.  TableModel.v:
+   an access to a package table is an interval; a locked access holds the package mutex for it.  Any number of
+   routines, any interleaving: if every access is locked, two routines are never inside an access at the same time *)
+Theorem C17_locked_table_accesses_never_overlap : forall n sch st i j a b,
+  trun (tinit n) sch = Some st -> disciplined sch = true -> i <> j ->
+  nth_error (within st) i = Some (Some a) -> nth_error (within st) j = Some (Some b) -> False.
+Proof. exact locked_table_accesses_never_overlap. Qed.
+Print Assumptions C17_locked_table_accesses_never_overlap.
+
+(* REFUTED without the discipline: one reader that does not take the mutex (a let binding's constant check) is inside
+   the variable table together with a writer that does (defvar of a new variable): the Go map is read while written *)
+Theorem C17_unlocked_reader_overlaps_writer_refuted :
+  exists st, trun (tinit 2) [(0, TEnter w_defvar); (1, TEnter r_unlocked)] = Some st /\
+             nth_error (within st) 0 = Some (Some w_defvar) /\ nth_error (within st) 1 = Some (Some r_unlocked) /\
+             conflict w_defvar r_unlocked = true.
+Proof. exact unlocked_reader_overlaps_writer_refuted. Qed.
+Print Assumptions C17_unlocked_reader_overlaps_writer_refuted.
+
+(* non-vacuity: with the discipline the reader's step is not enabled while the writer is inside *)
+Theorem C17_locked_reader_waits :
+  let r_locked := mkAc TVars false true in
+  trun (tinit 2) [(0, TEnter w_defvar); (1, TEnter r_locked)] = None /\
+  exists st, trun (tinit 2) [(0, TEnter w_defvar); (0, TLeave); (1, TEnter r_locked)] = Some st /\ holder st = Some 1.
+Proof. exact locked_reader_waits. Qed.
+Print Assumptions C17_locked_reader_waits.
